@@ -1,6 +1,4 @@
 // ===== spec/rrwire.rs: RFC 1035 wire form of a synthesised record (C13) =====
-pub open spec fn b16(v: u16) -> Seq<u8> { seq![hi8(v), lo8(v)] }
-pub open spec fn b32(v: u32) -> Seq<u8> { seq![(v >> 24) as u8, ((v >> 16) & 0xff) as u8, ((v >> 8) & 0xff) as u8, (v & 0xff) as u8] }
 // owner name (text) ++ type ++ class ++ ttl ++ rdlength ++ rdata
 pub open spec fn rr_wire(name: Seq<u8>, t: u16, c: u16, ttl: u32, rdata: Seq<u8>) -> Option<Seq<u8>> {
     match name_to_wire(name, None) {
